@@ -124,17 +124,9 @@ def transparent_helpers(functions, globals_=None, types=None):
         # a helper that takes a function pointer is a dispatcher the rules follow through their own tables (REQUIRES)
         if types is not None and any((types[p["t"]] or {}).get("fnptr") or "(*)" in ((types[p["t"]] or {}).get("s") or "") for p in fj["params"] if p.get("t") is not None and p["t"] >= 0):
             continue
-        # no recursion (direct or through other functions of the unit)
-        seen, work, rec = set(), [name], False
-        while work:
-            x = work.pop()
-            for c in calls.get(x, ()):
-                if c == name:
-                    rec = True
-                if c not in seen:
-                    seen.add(c)
-                    work.append(c)
-        if rec:
+        # no self-recursion.  (A helper that calls back into its - known - caller is fine: it is expanded there once and
+        # the call back stays a call; mutually recursive helpers stop at MAX_DEPTH.)
+        if name in calls.get(name, ()):
             continue
         # variadic / struct-by-value returning helpers and helpers with labels (goto) are left alone
         if any(b.get("label") for b in fj["blocks"]):
